@@ -21,7 +21,7 @@ func (f *fSched) Waiters() []core.FWaiter {
 	ws := f.s.Waiters()
 	out := make([]core.FWaiter, len(ws))
 	for i, w := range ws {
-		out[i] = core.FWaiter{Site: w.Site, Lock: w.Kind == simrt.KindLock, Runnable: f.s.Runnable(w), Seq: w.Seq, G: w.G, Ref: w}
+		out[i] = core.FWaiter{Site: w.Site, Lock: w.Kind == simrt.KindLock, Sync: w.Kind == simrt.KindYieldSync, Runnable: f.s.Runnable(w), Seq: w.Seq, G: w.G, Ref: w}
 	}
 	return out
 }
